@@ -1,4 +1,688 @@
-From Coq Require Import List ZArith Bool Lia QArith.
+(* Lemmas about Disc/LatticeModel.v (property C69). *)
+From Coq Require Import List ZArith Bool Lia QArith Permutation.
 From PLV Require Import Disc.LatticeModel.
 Import ListNotations.
 Open Scope Z_scope.
+
+(* ------------------------------------------------------------------ list utilities *)
+Lemma In_range : forall lo hi x, In x (range lo hi) <-> lo <= x < hi.
+Proof.
+  intros lo hi x; unfold range; rewrite in_map_iff; split.
+  - intros [i [<- Hi]]; apply in_seq in Hi; lia.
+  - intros H; exists (Z.to_nat (x - lo)); split; [lia | apply in_seq; lia].
+Qed.
+
+Lemma NoDup_map_in : forall {A B} (f : A -> B) l,
+  (forall x y, In x l -> In y l -> f x = f y -> x = y) -> NoDup l -> NoDup (map f l).
+Proof.
+  intros A B f l; induction l as [|a l IH]; intros Hinj Hnd; cbn; [constructor|].
+  inversion Hnd as [|? ? Hna Hnd']; subst; constructor.
+  - rewrite in_map_iff; intros [y [Hy Hin]]. apply Hna.
+    rewrite <- (Hinj y a); auto; [right; auto | left; auto].
+  - apply IH; auto. intros x y Hx Hy; apply Hinj; right; auto.
+Qed.
+
+Lemma NoDup_range : forall lo hi, NoDup (range lo hi).
+Proof.
+  intros lo hi; unfold range; apply NoDup_map_in; [|apply seq_NoDup].
+  intros x y _ _ H; lia.
+Qed.
+
+Lemma NoDup_app_intro : forall {A} (a b : list A),
+  NoDup a -> NoDup b -> (forall x, In x a -> ~ In x b) -> NoDup (a ++ b).
+Proof.
+  intros A a; induction a as [|x a IH]; intros b Ha Hb Hd; cbn; auto.
+  inversion Ha; subst; constructor.
+  - rewrite in_app_iff; intros [H|H]; [auto | apply (Hd x); [left; auto | auto]].
+  - apply IH; auto. intros y Hy; apply Hd; right; auto.
+Qed.
+
+Lemma NoDup_flat_map : forall {A B} (f : A -> list B) l,
+  NoDup l -> (forall x, In x l -> NoDup (f x)) ->
+  (forall x y b, In x l -> In y l -> x <> y -> In b (f x) -> ~ In b (f y)) -> NoDup (flat_map f l).
+Proof.
+  intros A B f l; induction l as [|a l IH]; intros Hnd Hf Hdis; cbn; [constructor|].
+  inversion Hnd as [|? ? Hna Hnd']; subst.
+  apply NoDup_app_intro.
+  - apply Hf; left; auto.
+  - apply IH; auto.
+    + intros x Hx; apply Hf; right; auto.
+    + intros x y b Hx Hy; apply Hdis; right; auto.
+  - intros b Hb Hin; apply in_flat_map in Hin; destruct Hin as [y [Hy Hby]].
+    apply (Hdis a y b); auto; [left; auto | right; auto | intros ->; auto].
+Qed.
+
+Lemma In_product : forall rs c, In c (product rs) <-> Forall2 (fun r x => In x r) rs c.
+Proof.
+  induction rs as [|r rs IH]; intros c; cbn.
+  - split; [intros [<-|[]]; constructor | intros H; inversion H; auto].
+  - rewrite in_flat_map; split.
+    + intros [x [Hx Hc]]; apply in_map_iff in Hc; destruct Hc as [c' [<- Hc']].
+      constructor; auto; apply IH; auto.
+    + intros H; inversion H as [|? x ? c' Hx Hc']; subst. exists x; split; auto.
+      apply in_map; apply IH; auto.
+Qed.
+
+Lemma NoDup_product : forall rs, Forall (@NoDup Z) rs -> NoDup (product rs).
+Proof.
+  induction rs as [|r rs IH]; intros H; cbn.
+  - constructor; [intros [] | constructor].
+  - inversion H; subst. apply NoDup_flat_map; auto.
+    + intros x _; apply NoDup_map_in; auto. intros a b _ _ E; inversion E; auto.
+    + intros x y b _ _ Hxy Hb Hb'. apply in_map_iff in Hb; apply in_map_iff in Hb'.
+      destruct Hb as [c [<- _]]; destruct Hb' as [c' [E _]]; inversion E; auto.
+Qed.
+
+(* allpairs *)
+Lemma In_allpairs : forall {A} (l : list A) x y, In (x, y) (allpairs l) -> In x l /\ In y l.
+Proof.
+  intros A l; induction l as [|a l IH]; intros x y; cbn; [tauto|].
+  rewrite in_app_iff, in_map_iff; intros [[z [E Hz]]|H].
+  - inversion E; subst; auto.
+  - destruct (IH _ _ H); auto.
+Qed.
+
+Lemma allpairs_neq : forall {A} (l : list A) x y, NoDup l -> In (x, y) (allpairs l) -> x <> y.
+Proof.
+  intros A l; induction l as [|a l IH]; intros x y Hnd; cbn; [tauto|].
+  inversion Hnd; subst. rewrite in_app_iff, in_map_iff; intros [[z [E Hz]]|H].
+  - inversion E; subst; intros ->; auto.
+  - apply IH; auto.
+Qed.
+
+Lemma allpairs_complete : forall {A} (l : list A) x y, In x l -> In y l -> x <> y ->
+  In (x, y) (allpairs l) \/ In (y, x) (allpairs l).
+Proof.
+  intros A l; induction l as [|a l IH]; intros x y Hx Hy Hne; cbn in *; [tauto|].
+  rewrite !in_app_iff.
+  destruct Hx as [->|Hx], Hy as [->|Hy].
+  - tauto.
+  - left; left; apply in_map; auto.
+  - right; left; apply in_map; auto.
+  - destruct (IH x y Hx Hy Hne); auto.
+Qed.
+
+(* dedupb *)
+Section Dedup.
+  Context {A : Type} (eqb : A -> A -> bool) (eqb_spec : forall a b, eqb a b = true <-> a = b).
+
+  Lemma existsb_eqb : forall x l, existsb (eqb x) l = true <-> In x l.
+  Proof.
+    intros x l; rewrite existsb_exists; split.
+    - intros [y [Hy E]]; apply eqb_spec in E; subst; auto.
+    - intros H; exists x; split; auto; apply eqb_spec; auto.
+  Qed.
+
+  Lemma fold_add_new : forall l acc x, In x (fold_left (add_new eqb) l acc) <-> In x acc \/ In x l.
+  Proof.
+    induction l as [|a l IH]; intros acc x; cbn; [tauto|].
+    rewrite IH; unfold add_new. destruct (existsb (eqb a) acc) eqn:E.
+    - apply existsb_eqb in E; split; [tauto|]. intros [H|[<-|H]]; auto.
+    - cbn; tauto.
+  Qed.
+
+  Lemma fold_add_new_nodup : forall l acc, NoDup acc -> NoDup (fold_left (add_new eqb) l acc).
+  Proof.
+    induction l as [|a l IH]; intros acc H; cbn; auto.
+    apply IH; unfold add_new. destruct (existsb (eqb a) acc) eqn:E; auto.
+    constructor; auto. intros Hin; apply existsb_eqb in Hin; congruence.
+  Qed.
+
+  Lemma In_dedupb : forall l x, In x (dedupb eqb l) <-> In x l.
+  Proof. intros l x; unfold dedupb; rewrite fold_add_new; cbn; tauto. Qed.
+
+  Lemma NoDup_dedupb : forall l, NoDup (dedupb eqb l).
+  Proof. intros l; apply fold_add_new_nodup; constructor. Qed.
+End Dedup.
+
+Lemma eqe_spec : forall a b, eqe a b = true <-> a = b.
+Proof.
+  intros [[a1 a2] a3] [[b1 b2] b3]; cbn; rewrite !andb_true_iff, !Z.eqb_eq; split.
+  - intros [[-> ->] ->]; auto.
+  - intros E; inversion E; auto.
+Qed.
+
+Lemma sqd_sym : forall w x y, sqd w x y = sqd w y x.
+Proof.
+  induction w as [|a w IH]; intros [|b x] [|c y]; cbn; auto. rewrite IH; ring.
+Qed.
+
+Lemma rank_zero : forall dv v, (forall x, In x dv -> v <= x) -> rank dv v = 0.
+Proof.
+  intros dv v H; unfold rank.
+  replace (filter (fun x => x <? v) dv) with (@nil Z); auto.
+  induction dv as [|a dv IH]; cbn; auto.
+  destruct (a <? v) eqn:E.
+  - apply Z.ltb_lt in E. specialize (H a (or_introl eq_refl)); lia.
+  - apply IH; intros; apply H; right; auto.
+Qed.
+
+(* ------------------------------------------------------------------ generic facts about lattice_edges *)
+Lemma Zeqb_spec : forall a b : Z, (a =? b) = true <-> a = b.
+Proof. intros; apply Z.eqb_eq. Qed.
+
+Lemma In_kept : forall sp ncs bcs k P Q,
+  In (P, Q) (kept sp ncs bcs k) <->
+  In (P, Q) (allpairs (lpoints sp ncs bcs k)) /\ d2 sp (P, Q) <= cutoff2 sp k.
+Proof. intros; unfold kept; rewrite filter_In, Z.leb_le; tauto. Qed.
+
+Definition dvals sp ncs bcs k := dedupb Z.eqb (map (d2 sp) (kept sp ncs bcs k)).
+
+Lemma edges_in_iff : forall sp ncs bcs k a b t,
+  In (a, b, t) (lattice_edges sp ncs bcs k) <->
+  exists P Q, In (P, Q) (kept sp ncs bcs k) /\ t = rank (dvals sp ncs bcs k) (d2 sp (P, Q)) /\ t < k /\
+              a = Z.min (snd P) (snd Q) /\ b = Z.max (snd P) (snd Q).
+Proof.
+  intros; unfold lattice_edges; rewrite (In_dedupb eqe eqe_spec), in_flat_map; fold (dvals sp ncs bcs k); split.
+  - intros [[P Q] [Hin Ht]]; unfold true_edge in Ht; cbn [fst snd] in Ht.
+    destruct (rank (dvals sp ncs bcs k) (d2 sp (P, Q)) <? k) eqn:E; [|destruct Ht].
+    destruct Ht as [Ht|[]]; inversion Ht; subst. apply Z.ltb_lt in E. exists P, Q; auto.
+  - intros [P [Q [Hin [-> [Hlt [-> ->]]]]]]. exists (P, Q); split; auto.
+    unfold true_edge; cbn [fst snd]. apply Z.ltb_lt in Hlt; rewrite Hlt; left; auto.
+Qed.
+
+Lemma rank_nonneg : forall dv v, 0 <= rank dv v.
+Proof. intros; unfold rank; lia. Qed.
+
+(* every shape, size, boundary condition and order: no duplicates, ordered endpoints, tags below the order *)
+Lemma edges_wf : forall sp ncs bcs k,
+  NoDup (lattice_edges sp ncs bcs k) /\
+  forall a b t, In (a, b, t) (lattice_edges sp ncs bcs k) -> a <= b /\ 0 <= t < k.
+Proof.
+  intros; split; [apply (NoDup_dedupb eqe eqe_spec)|].
+  intros a b t H; apply edges_in_iff in H; destruct H as [P [Q [_ [-> [Hlt [-> ->]]]]]].
+  pose proof (rank_nonneg (dvals sp ncs bcs k) (d2 sp (P, Q))); lia.
+Qed.
+
+(* when the cutoff equals the smallest distance between distinct grid points, the order-k edge set is the set of
+   pairs at that distance, all tagged 0 *)
+Lemma edges_min_dist : forall sp ncs bcs k,
+  0 < k -> NoDup (lpoints sp ncs bcs k) ->
+  (forall P Q, In P (lpoints sp ncs bcs k) -> In Q (lpoints sp ncs bcs k) -> P <> Q -> cutoff2 sp k <= d2 sp (P, Q)) ->
+  forall a b t, In (a, b, t) (lattice_edges sp ncs bcs k) <->
+    t = 0 /\ exists P Q, In P (lpoints sp ncs bcs k) /\ In Q (lpoints sp ncs bcs k) /\ P <> Q /\
+                         d2 sp (P, Q) <= cutoff2 sp k /\ a = Z.min (snd P) (snd Q) /\ b = Z.max (snd P) (snd Q).
+Proof.
+  intros sp ncs bcs k Hk Hnd Hmin a b t.
+  assert (Hdv : forall P Q, In (P, Q) (kept sp ncs bcs k) -> rank (dvals sp ncs bcs k) (d2 sp (P, Q)) = 0).
+  { intros P Q HPQ; apply rank_zero; intros x Hx.
+    unfold dvals in Hx; rewrite (In_dedupb Z.eqb Zeqb_spec) in Hx; apply in_map_iff in Hx.
+    destruct Hx as [[P' Q'] [<- H']]. apply In_kept in HPQ; apply In_kept in H'.
+    destruct HPQ as [_ H1]; destruct H' as [H2 _].
+    pose proof (allpairs_neq _ _ _ Hnd H2) as Hne. apply In_allpairs in H2; destruct H2 as [Ha Hb].
+    pose proof (Hmin P' Q' Ha Hb Hne). unfold d2 in *; cbn [fst snd] in *; lia. }
+  rewrite edges_in_iff; split.
+  - intros [P [Q [Hin [-> [Hlt [-> ->]]]]]]. split; [apply Hdv; auto|].
+    apply In_kept in Hin; destruct Hin as [H1 H2].
+    pose proof (allpairs_neq _ _ _ Hnd H1). apply In_allpairs in H1; destruct H1.
+    exists P, Q; repeat split; auto.
+  - intros [-> [P [Q [HP [HQ [Hne [Hd [-> ->]]]]]]]].
+    destruct (allpairs_complete _ P Q HP HQ Hne) as [H|H].
+    + exists P, Q. assert (In (P, Q) (kept sp ncs bcs k)) by (apply In_kept; auto).
+      rewrite Hdv by auto. repeat split; auto.
+    + exists Q, P. assert (In (Q, P) (kept sp ncs bcs k)).
+      { apply In_kept; split; auto. unfold d2 in *; cbn [fst snd] in *; rewrite sqd_sym; auto. }
+      rewrite Hdv by auto. repeat split; auto; lia.
+Qed.
+
+(* ------------------------------------------------------------------ the grid *)
+Lemma In_grid : forall sp ncs bcs k c s,
+  In (c, s) (grid sp ncs bcs k) <-> In c (product (ranges ncs bcs k)) /\ 0 <= s < nsl sp.
+Proof.
+  intros; unfold grid; rewrite in_flat_map; split.
+  - intros [c' [Hc Hin]]; apply in_map_iff in Hin; destruct Hin as [s' [E Hs]]; inversion E; subst.
+    rewrite In_range in Hs; auto.
+  - intros [Hc Hs]; exists c; split; auto; apply in_map_iff; exists s; rewrite In_range; auto.
+Qed.
+
+Lemma ranges_nodup : forall ncs bcs k, Forall (@NoDup Z) (ranges ncs bcs k).
+Proof.
+  unfold ranges; induction ncs as [|n ncs IH]; intros [|b bcs] k; cbn; constructor; auto using NoDup_range.
+Qed.
+
+Lemma NoDup_grid : forall sp ncs bcs k, NoDup (grid sp ncs bcs k).
+Proof.
+  intros; unfold grid; apply NoDup_flat_map.
+  - apply NoDup_product, ranges_nodup.
+  - intros x _; apply NoDup_map_in; [|apply NoDup_range]. intros a b _ _ E; inversion E; auto.
+  - intros x y b _ _ Hxy Hb Hb'. apply in_map_iff in Hb; apply in_map_iff in Hb'.
+    destruct Hb as [s [<- _]]; destruct Hb' as [s' [E _]]; inversion E; auto.
+Qed.
+
+Definition wz (b : bool) : Z := if b then 1 else 0.
+
+Lemma chain_f : forall n c,
+  (coords (spec_of Chain) ([c], 0), node [n] (nsl (spec_of Chain)) ([c], 0)) = ([c], c mod n).
+Proof.
+  intros; unfold coords, node; cbn. f_equal; [f_equal|]; lia.
+Qed.
+
+Lemma chain_lpoint : forall n per P,
+  In P (lpoints (spec_of Chain) [n] [per] 1) <-> exists c, - wz per <= c < n + wz per /\ P = ([c], c mod n).
+Proof.
+  intros n per P; unfold lpoints; rewrite in_map_iff; split.
+  - intros [[cell s] [<- Hin]]; apply In_grid in Hin; destruct Hin as [Hc Hs].
+    apply In_product in Hc; unfold ranges in Hc; cbn [map2] in Hc.
+    inversion Hc as [|r x rs' c' Hx Hrest]; subst; inversion Hrest; subst.
+    rewrite In_range in Hx. assert (s = 0) by (cbn in Hs; lia); subst s.
+    exists x; split; [destruct per; cbn in *; lia | apply chain_f].
+  - intros [c [Hc ->]]; exists ([c], 0); split; [apply chain_f|].
+    apply In_grid; split; [|cbn; lia]. apply In_product; unfold ranges; cbn [map2].
+    constructor; [|constructor]. rewrite In_range; destruct per; cbn in *; lia.
+Qed.
+
+Lemma chain_lpoints_nodup : forall n per, NoDup (lpoints (spec_of Chain) [n] [per] 1).
+Proof.
+  intros; unfold lpoints; apply NoDup_map_in; [|apply NoDup_grid].
+  intros [c s] [c' s'] Hx Hy E. apply In_grid in Hx; apply In_grid in Hy.
+  destruct Hx as [Hc Hs]; destruct Hy as [Hc' Hs'].
+  apply In_product in Hc; apply In_product in Hc'; unfold ranges in *; cbn [map2] in *.
+  inversion Hc as [|? x ? ? _ Hr]; subst; inversion Hr; subst.
+  inversion Hc' as [|? x' ? ? _ Hr']; subst; inversion Hr'; subst.
+  assert (s = 0) by (cbn in Hs; lia); assert (s' = 0) by (cbn in Hs'; lia); subst.
+  rewrite !chain_f in E. inversion E; auto.
+Qed.
+
+(* adjacency of sites along one direction of n cells: i ~ i+1, and n-1 ~ 0 when periodic *)
+Definition adj (n : Z) (per : bool) (u v : Z) : Prop :=
+  (0 <= u /\ v = u + 1 /\ v < n) \/ (per = true /\ u = n - 1 /\ v = 0).
+
+Lemma wrap_mod : forall n c, 0 < n -> -1 <= c <= n ->
+  c mod n = if c =? -1 then n - 1 else if c =? n then 0 else c.
+Proof.
+  intros n c Hn Hc. destruct (c =? -1) eqn:E1; [|destruct (c =? n) eqn:E2].
+  - apply Z.eqb_eq in E1; subst. symmetry; apply (Z.mod_unique_pos _ _ (-1)); lia.
+  - apply Z.eqb_eq in E2; subst. apply Z_mod_same_full.
+  - apply Z.eqb_neq in E1; apply Z.eqb_neq in E2. apply Z.mod_small; lia.
+Qed.
+
+Lemma adj_nodes : forall n per c, 0 < n -> - wz per <= c -> c + 1 < n + wz per ->
+  adj n per (c mod n) ((c + 1) mod n).
+Proof.
+  intros n per c Hn H1 H2. unfold adj.
+  assert (Hw : 0 <= wz per <= 1) by (destruct per; cbn; lia).
+  destruct (Z.eq_dec c (-1)) as [->|N1].
+  { right. destruct per; [|cbn in *; lia]. split; auto. split.
+    - symmetry; apply (Z.mod_unique_pos _ _ (-1)); lia.
+    - replace (-1 + 1) with 0 by lia; apply Z.mod_0_l; lia. }
+  destruct (Z.eq_dec (c + 1) n) as [E|N2].
+  { right. destruct per; [|cbn in *; lia]. split; auto; split.
+    - rewrite Z.mod_small; lia.
+    - rewrite E; apply Z_mod_same_full. }
+  left. rewrite !Z.mod_small by lia. lia.
+Qed.
+
+Lemma chain_cutoff : cutoff2 (spec_of Chain) 1 = 1.
+Proof. reflexivity. Qed.
+
+Lemma chain_d2 : forall c u c' u', d2 (spec_of Chain) (([c], u), ([c'], u')) = (c - c') * (c - c').
+Proof. intros; unfold d2; cbn [sqd fst snd spec_of wts]. ring. Qed.
+
+Lemma chain_edges_in : forall n per a b t, 0 < n ->
+  (In (a, b, t) (lattice_edges (spec_of Chain) [n] [per] 1) <->
+   t = 0 /\ exists u v, adj n per u v /\ a = Z.min u v /\ b = Z.max u v).
+Proof.
+  intros n per a b t Hn.
+  assert (Hw : 0 <= wz per <= 1) by (destruct per; cbn; lia).
+  rewrite edges_min_dist; [|lia|apply chain_lpoints_nodup|].
+  2:{ intros P Q HP HQ Hne. apply chain_lpoint in HP; apply chain_lpoint in HQ.
+      destruct HP as [c [_ ->]]; destruct HQ as [c' [_ ->]]. rewrite chain_cutoff, chain_d2.
+      assert (c <> c') by (intros ->; auto). nia. }
+  rewrite chain_cutoff. split; intros [-> H]; split; auto.
+  - destruct H as [P [Q [HP [HQ [Hne [Hd [-> ->]]]]]]].
+    apply chain_lpoint in HP; apply chain_lpoint in HQ.
+    destruct HP as [c [Hc ->]]; destruct HQ as [c' [Hc' ->]]. rewrite chain_d2 in Hd. cbn [snd].
+    assert (c <> c') by (intros ->; auto).
+    assert (c' = c + 1 \/ c = c' + 1) as [->| ->] by nia.
+    + exists (c mod n), ((c + 1) mod n); split; auto. apply adj_nodes; lia.
+    + exists (c' mod n), ((c' + 1) mod n); split; [apply adj_nodes; lia | ].
+      rewrite Z.min_comm, Z.max_comm; auto.
+  - destruct H as [u [v [[[H0 [-> H1]]|[Hp [-> ->]]] [-> ->]]]].
+    + exists ([u], u mod n), ([u + 1], (u + 1) mod n). rewrite !chain_lpoint, chain_d2. cbn [snd].
+      rewrite (Z.mod_small u n), (Z.mod_small (u + 1) n) by lia. refine (conj _ (conj _ (conj _ (conj _ (conj _ _))))); try lia.
+      * exists u; split; [lia | rewrite Z.mod_small by lia; auto].
+      * exists (u + 1); split; [lia | rewrite Z.mod_small by lia; auto].
+      * intros E; inversion E; lia.
+    + subst per. exists ([n - 1], (n - 1) mod n), ([n], n mod n). rewrite !chain_lpoint, chain_d2. cbn [snd].
+      rewrite Z_mod_same_full, (Z.mod_small (n - 1)) by lia. refine (conj _ (conj _ (conj _ (conj _ (conj _ _))))); try lia.
+      * exists (n - 1); cbn; split; [lia | rewrite Z.mod_small by lia; auto].
+      * exists n; cbn; split; [lia | rewrite Z_mod_same_full; auto].
+      * intros E; inversion E; lia.
+Qed.
+
+(* the explicit form: {(i, i+1)} plus (0, n-1) when periodic *)
+Lemma chain_edges_explicit : forall n per a b t, 0 < n ->
+  (In (a, b, t) (lattice_edges (spec_of Chain) [n] [per] 1) <->
+   t = 0 /\ ((0 <= a /\ b = a + 1 /\ b < n) \/ (per = true /\ a = 0 /\ b = n - 1))).
+Proof.
+  intros n per a b t Hn; rewrite chain_edges_in by auto; split; intros [-> H]; split; auto.
+  - destruct H as [u [v [[[H0 [-> H1]]|[Hp [-> ->]]] [-> ->]]]]; [left; lia | right; split; [auto | lia]].
+  - destruct H as [[H0 [-> H1]]|[Hp [-> ->]]].
+    + exists a, (a + 1); split; [left|]; lia.
+    + exists (n - 1), 0; split; [right; auto|lia].
+Qed.
+
+(* ------------------------------------------------------------------ square / rectangle *)
+Definition nd (n1 n2 c1 c2 : Z) : Z := (c1 mod n1) * n2 + c2 mod n2.
+
+Lemma sq_f : forall n1 n2 c1 c2,
+  (coords (spec_of Square) ([c1; c2], 0), node [n1; n2] (nsl (spec_of Square)) ([c1; c2], 0)) = ([c2; c1], nd n1 n2 c1 c2).
+Proof.
+  intros; unfold coords, node, nd.
+  cbn [spec_of vecs poss wts zero_of nsl length map lincomb vadd vscale fst snd nth Z.to_nat map2 axis prodZ fold_right dot Z.of_nat Pos.of_succ_nat].
+  f_equal; [f_equal; [|f_equal]|]; ring.
+Qed.
+
+Lemma sq_lpoint : forall n1 n2 p1 p2 P,
+  In P (lpoints (spec_of Square) [n1; n2] [p1; p2] 1) <->
+  exists c1 c2, - wz p1 <= c1 < n1 + wz p1 /\ - wz p2 <= c2 < n2 + wz p2 /\ P = ([c2; c1], nd n1 n2 c1 c2).
+Proof.
+  intros n1 n2 p1 p2 P; unfold lpoints; rewrite in_map_iff; split.
+  - intros [[cell s] [<- Hin]]; apply In_grid in Hin; destruct Hin as [Hc Hs].
+    apply In_product in Hc; unfold ranges in Hc; cbn [map2] in Hc.
+    inversion Hc as [|r x rs' c' Hx Hrest]; subst; inversion Hrest as [|r' y rs'' c'' Hy Hrest']; subst; inversion Hrest'; subst.
+    rewrite In_range in Hx, Hy. assert (s = 0) by (cbn in Hs; lia); subst s.
+    exists x, y; split; [destruct p1; cbn in *; lia | split; [destruct p2; cbn in *; lia | apply sq_f]].
+  - intros [c1 [c2 [H1 [H2 ->]]]]; exists ([c1; c2], 0); split; [apply sq_f|].
+    apply In_grid; split; [|cbn; lia]. apply In_product; unfold ranges; cbn [map2].
+    constructor; [|constructor; [|constructor]]; rewrite In_range; [destruct p1 | destruct p2]; cbn in *; lia.
+Qed.
+
+Lemma sq_lpoints_nodup : forall n1 n2 p1 p2, NoDup (lpoints (spec_of Square) [n1; n2] [p1; p2] 1).
+Proof.
+  intros; unfold lpoints; apply NoDup_map_in; [|apply NoDup_grid].
+  intros [c s] [c' s'] Hx Hy E. apply In_grid in Hx; apply In_grid in Hy.
+  destruct Hx as [Hc Hs]; destruct Hy as [Hc' Hs'].
+  apply In_product in Hc; apply In_product in Hc'; unfold ranges in *; cbn [map2] in *.
+  inversion Hc as [|? x ? ? _ Hr]; subst; inversion Hr as [|? y ? ? _ Hr2]; subst; inversion Hr2; subst.
+  inversion Hc' as [|? x' ? ? _ Hr']; subst; inversion Hr' as [|? y' ? ? _ Hr2']; subst; inversion Hr2'; subst.
+  assert (s = 0) by (cbn in Hs; lia); assert (s' = 0) by (cbn in Hs'; lia); subst.
+  rewrite !sq_f in E. inversion E; auto.
+Qed.
+
+Lemma sq_cutoff : cutoff2 (spec_of Square) 1 = 1.
+Proof. reflexivity. Qed.
+
+Lemma sq_d2 : forall x y u x' y' u',
+  d2 (spec_of Square) (([x; y], u), ([x'; y'], u')) = (x - x') * (x - x') + (y - y') * (y - y').
+Proof. intros; unfold d2; cbn [sqd fst snd spec_of wts]. ring. Qed.
+
+Lemma sq_ge1 : forall x, x <> 0 -> 1 <= x * x.
+Proof. intros; nia. Qed.
+
+Definition grid_adj (n1 n2 : Z) (p1 p2 : bool) (u v : Z) : Prop :=
+  exists r c r' c', 0 <= r < n1 /\ 0 <= c < n2 /\ 0 <= r' < n1 /\ 0 <= c' < n2 /\
+    u = r * n2 + c /\ v = r' * n2 + c' /\ ((r = r' /\ adj n2 p2 c c') \/ (c = c' /\ adj n1 p1 r r')).
+
+Lemma sq_min : forall n1 n2 p1 p2, 
+  forall P Q, In P (lpoints (spec_of Square) [n1; n2] [p1; p2] 1) -> In Q (lpoints (spec_of Square) [n1; n2] [p1; p2] 1) ->
+  P <> Q -> cutoff2 (spec_of Square) 1 <= d2 (spec_of Square) (P, Q).
+Proof.
+  intros n1 n2 p1 p2 P Q HP HQ Hne. apply sq_lpoint in HP; apply sq_lpoint in HQ.
+  destruct HP as [c1 [c2 [_ [_ ->]]]]; destruct HQ as [c1' [c2' [_ [_ ->]]]]. rewrite sq_cutoff, sq_d2.
+  pose proof (Z.square_nonneg (c2 - c2')). pose proof (Z.square_nonneg (c1 - c1')).
+  destruct (Z.eq_dec c1 c1') as [->|N1]; [destruct (Z.eq_dec c2 c2') as [->|N2]; [exfalso; auto|]|].
+  - pose proof (sq_ge1 (c2 - c2')); lia.
+  - pose proof (sq_ge1 (c1 - c1')); lia.
+Qed.
+
+(* two grid cells at distance 1 give an edge *)
+Lemma sq_pair_edge : forall n1 n2 p1 p2 c1 c2 c1' c2',
+  - wz p1 <= c1 < n1 + wz p1 -> - wz p2 <= c2 < n2 + wz p2 ->
+  - wz p1 <= c1' < n1 + wz p1 -> - wz p2 <= c2' < n2 + wz p2 ->
+  (c2 - c2') * (c2 - c2') + (c1 - c1') * (c1 - c1') = 1 ->
+  In (Z.min (nd n1 n2 c1 c2) (nd n1 n2 c1' c2'), Z.max (nd n1 n2 c1 c2) (nd n1 n2 c1' c2'), 0)
+     (lattice_edges (spec_of Square) [n1; n2] [p1; p2] 1).
+Proof.
+  intros n1 n2 p1 p2 c1 c2 c1' c2' H1 H2 H1' H2' Hd.
+  apply edges_min_dist; [lia | apply sq_lpoints_nodup | apply sq_min |]. split; auto.
+  exists ([c2; c1], nd n1 n2 c1 c2), ([c2'; c1'], nd n1 n2 c1' c2').
+  rewrite !sq_lpoint, sq_cutoff, sq_d2. cbn [snd].
+  refine (conj _ (conj _ (conj _ (conj _ (conj _ _))))); auto; try lia.
+  - exists c1, c2; auto.
+  - exists c1', c2'; auto.
+  - intros E; inversion E; subst. replace (c2' - c2') with 0 in Hd by lia. replace (c1' - c1') with 0 in Hd by lia. lia.
+Qed.
+
+Lemma unit_steps : forall dx dy, dx * dx + dy * dy <= 1 -> ~ (dx = 0 /\ dy = 0) ->
+  (dx = 0 /\ dy = -1) \/ (dx = 0 /\ dy = 1) \/ (dy = 0 /\ dx = -1) \/ (dy = 0 /\ dx = 1).
+Proof.
+  intros dx dy H N. pose proof (Z.square_nonneg dx). pose proof (Z.square_nonneg dy).
+  assert (dx * dx <= 1) by lia. assert (dy * dy <= 1) by lia.
+  assert (-1 <= dx <= 1) by (split; nia). assert (-1 <= dy <= 1) by (split; nia).
+  assert (dx = -1 \/ dx = 0 \/ dx = 1) as [->|[->| ->]] by lia;
+  assert (dy = -1 \/ dy = 0 \/ dy = 1) as [->|[->| ->]] by lia; try lia; tauto.
+Qed.
+
+Lemma nd_bounds : forall n1 n2 c1 c2, 0 < n1 -> 0 < n2 ->
+  0 <= c1 mod n1 < n1 /\ 0 <= c2 mod n2 < n2.
+Proof. intros; split; apply Z.mod_pos_bound; auto. Qed.
+
+Lemma square_edges_in : forall n1 n2 p1 p2 a b t, 0 < n1 -> 0 < n2 ->
+  (In (a, b, t) (lattice_edges (spec_of Square) [n1; n2] [p1; p2] 1) <->
+   t = 0 /\ exists u v, grid_adj n1 n2 p1 p2 u v /\ a = Z.min u v /\ b = Z.max u v).
+Proof.
+  intros n1 n2 p1 p2 a b t Hn1 Hn2.
+  assert (Hw1 : 0 <= wz p1 <= 1) by (destruct p1; cbn; lia).
+  assert (Hw2 : 0 <= wz p2 <= 1) by (destruct p2; cbn; lia).
+  split.
+  - intros H. apply (edges_min_dist (spec_of Square) [n1; n2] [p1; p2] 1 ltac:(lia) (sq_lpoints_nodup n1 n2 p1 p2) (sq_min n1 n2 p1 p2)) in H.
+    destruct H as [-> [P [Q [HP [HQ [Hne [Hd [-> ->]]]]]]]]. split; auto.
+    apply sq_lpoint in HP; apply sq_lpoint in HQ.
+    destruct HP as [c1 [c2 [H1 [H2 ->]]]]; destruct HQ as [c1' [c2' [H1' [H2' ->]]]].
+    rewrite sq_cutoff, sq_d2 in Hd. cbn [snd].
+    destruct (nd_bounds n1 n2 c1 c2 Hn1 Hn2) as [B1 B2]. destruct (nd_bounds n1 n2 c1' c2' Hn1 Hn2) as [B1' B2'].
+    destruct (unit_steps (c2 - c2') (c1 - c1') Hd) as [[E1 E2]|[[E1 E2]|[[E1 E2]|[E1 E2]]]].
+    { intros [E1 E2]; apply Hne. replace c2' with c2 by lia; replace c1' with c1 by lia; auto. }
+    + (* c2' = c2, c1' = c1 + 1 *)
+      replace c2' with c2 in * by lia; replace c1' with (c1 + 1) in * by lia.
+      exists (nd n1 n2 c1 c2), (nd n1 n2 (c1 + 1) c2); split; auto.
+      exists (c1 mod n1), (c2 mod n2), ((c1 + 1) mod n1), (c2 mod n2); unfold nd.
+      refine (conj B1 (conj B2 (conj B1' (conj B2 (conj eq_refl (conj eq_refl _)))))).
+      right; split; auto; apply adj_nodes; lia.
+    + (* c2' = c2, c1 = c1' + 1 *)
+      replace c2' with c2 in * by lia; replace c1 with (c1' + 1) in * by lia.
+      exists (nd n1 n2 c1' c2), (nd n1 n2 (c1' + 1) c2); split; [|rewrite Z.min_comm, Z.max_comm; auto].
+      exists (c1' mod n1), (c2 mod n2), ((c1' + 1) mod n1), (c2 mod n2); unfold nd.
+      refine (conj B1' (conj B2 (conj B1 (conj B2 (conj eq_refl (conj eq_refl _)))))).
+      right; split; auto; apply adj_nodes; lia.
+    + (* c1' = c1, c2' = c2 + 1 *)
+      replace c1' with c1 in * by lia; replace c2' with (c2 + 1) in * by lia.
+      exists (nd n1 n2 c1 c2), (nd n1 n2 c1 (c2 + 1)); split; auto.
+      exists (c1 mod n1), (c2 mod n2), (c1 mod n1), ((c2 + 1) mod n2); unfold nd.
+      refine (conj B1 (conj B2 (conj B1 (conj B2' (conj eq_refl (conj eq_refl _)))))).
+      left; split; auto; apply adj_nodes; lia.
+    + (* c1' = c1, c2 = c2' + 1 *)
+      replace c1' with c1 in * by lia; replace c2 with (c2' + 1) in * by lia.
+      exists (nd n1 n2 c1 c2'), (nd n1 n2 c1 (c2' + 1)); split; [|rewrite Z.min_comm, Z.max_comm; auto].
+      exists (c1 mod n1), (c2' mod n2), (c1 mod n1), ((c2' + 1) mod n2); unfold nd.
+      refine (conj B1 (conj B2' (conj B1 (conj B2 (conj eq_refl (conj eq_refl _)))))).
+      left; split; auto; apply adj_nodes; lia.
+  - intros [-> [u [v [[r [c [r' [c' [Hr [Hc [Hr' [Hc' [-> [-> Hadj]]]]]]]]]] [-> ->]]]]].
+    destruct Hadj as [[<- [[H0 [-> H1]]|[Hp [-> ->]]]]|[<- [[H0 [-> H1]]|[Hp [-> ->]]]]].
+    + pose proof (sq_pair_edge n1 n2 p1 p2 r c r (c + 1)) as E. unfold nd in E.
+      rewrite !Z.mod_small in E by lia. apply E; lia.
+    + subst p2. pose proof (sq_pair_edge n1 n2 p1 true r (n2 - 1) r n2) as E. unfold nd in E.
+      rewrite Z_mod_same_full, !Z.mod_small in E by lia. apply E; cbn; lia.
+    + pose proof (sq_pair_edge n1 n2 p1 p2 r c (r + 1) c) as E. unfold nd in E.
+      rewrite !Z.mod_small in E by lia. apply E; lia.
+    + subst p1. pose proof (sq_pair_edge n1 n2 true p2 (n1 - 1) c n1 c) as E. unfold nd in E.
+      rewrite Z_mod_same_full, !Z.mod_small in E by lia. apply E; cbn; lia.
+Qed.
+
+(* ------------------------------------------------------------------ Hamiltonians: loops = textbook sums *)
+Lemma fold_app_map : forall {A B} (g : A -> B) l acc,
+  fold_left (fun H x => H ++ [g x]) l acc = acc ++ map g l.
+Proof.
+  intros A B g l; induction l as [|a l IH]; intros acc; cbn; [rewrite app_nil_r; auto|].
+  rewrite IH, <- app_assoc; auto.
+Qed.
+
+Lemma fold_app_flat : forall {A B} (g : A -> list B) l acc,
+  fold_left (fun H x => H ++ g x) l acc = acc ++ flat_map g l.
+Proof.
+  intros A B g l; induction l as [|a l IH]; intros acc; cbn; [rewrite app_nil_r; auto|].
+  rewrite IH, <- app_assoc; auto.
+Qed.
+
+Definition e1 (e : edge) : Z := fst (fst e).
+Definition e2 (e : edge) : Z := snd (fst e).
+
+(* the textbook sums, written as comprehensions over the edge list / the sites *)
+Definition ising_sum (es : list edge) (J : coupling) (h : Q) (n : Z) : list term :=
+  H0 ++ map (fun e => (Qopp (coup_at J e), pair_word LZ (e1 e) (e2 e))) es
+     ++ map (fun v => (Qopp h, [(v, LX)])) (range 0 n).
+
+Definition heis_sum (es : list edge) (JX JY JZ : coupling) : list term :=
+  H0 ++ flat_map (fun e => [(coup_at JX e, pair_word LX (e1 e) (e2 e)); (coup_at JY e, pair_word LY (e1 e) (e2 e));
+                            (coup_at JZ e, pair_word LZ (e1 e) (e2 e))]) es.
+
+Definition hubbard_sum (es : list edge) (t : coupling) (U : list Q) (n : Z) : list term :=
+  H0 ++ flat_map (fun e => hop_terms (Qopp (coup_at t e)) (2 * e1 e) (2 * e2 e)
+                          ++ hop_terms (Qopp (coup_at t e)) (2 * e1 e + 1) (2 * e2 e + 1)) es
+     ++ flat_map (fun i => nn_terms (nthQ U i) (2 * i) (2 * i + 1)) (range 0 n).
+
+Lemma fold_left_ext : forall {A B} (f g : A -> B -> A) l a,
+  (forall a x, f a x = g a x) -> fold_left f l a = fold_left g l a.
+Proof. intros A B f g l; induction l as [|x l IH]; intros a H; cbn; auto. rewrite H; apply IH; auto. Qed.
+
+Lemma ising_edge_sum : forall es J h n, ising_terms es J h n = ising_sum es J h n.
+Proof.
+  intros; unfold ising_terms, ising_sum.
+  rewrite (fold_app_map (fun v => (Qopp h, [(v, LX)]))).
+  rewrite (fold_left_ext _ (fun H e => H ++ [(Qopp (coup_at J e), pair_word LZ (e1 e) (e2 e))])).
+  - rewrite fold_app_map, app_assoc; auto.
+  - intros a [[i j] t]; reflexivity.
+Qed.
+
+Lemma heis_edge_sum : forall es JX JY JZ, heis_terms es JX JY JZ = heis_sum es JX JY JZ.
+Proof.
+  intros; unfold heis_terms, heis_sum.
+  rewrite (fold_left_ext _ (fun H e => H ++ [(coup_at JX e, pair_word LX (e1 e) (e2 e)); (coup_at JY e, pair_word LY (e1 e) (e2 e));
+                            (coup_at JZ e, pair_word LZ (e1 e) (e2 e))])).
+  - apply fold_app_flat.
+  - intros a [[i j] t]; reflexivity.
+Qed.
+
+Lemma hubbard_edge_sum : forall es t U n, hubbard_terms es t U n = hubbard_sum es t U n.
+Proof.
+  intros; unfold hubbard_terms, hubbard_sum.
+  rewrite (fold_app_flat (fun i => nn_terms (nthQ U i) (2 * i) (2 * i + 1))).
+  rewrite (fold_left_ext _ (fun H e => H ++ (hop_terms (Qopp (coup_at t e)) (2 * e1 e) (2 * e2 e)
+                          ++ hop_terms (Qopp (coup_at t e)) (2 * e1 e + 1) (2 * e2 e + 1)))).
+  - rewrite fold_app_flat, app_assoc; auto.
+  - intros a [[i j] tg]; reflexivity.
+Qed.
+
+(* Hermiticity at the term-list level: real (rational) coefficients by typing; every word is a Pauli word:
+   strictly increasing sites, one letter X/Y/Z per site *)
+Fixpoint pauli_word (w : word) : Prop :=
+  match w with
+  | (i, _) :: (((j, _) :: _) as r) => i < j /\ pauli_word r
+  | _ => True
+  end.
+
+Lemma pair_word_ok : forall l i j, pauli_word (pair_word l i j).
+Proof.
+  intros l i j; unfold pair_word. destruct (i =? j) eqn:E; cbn; auto.
+  apply Z.eqb_neq in E. destruct (i <? j) eqn:E2; cbn; [apply Z.ltb_lt in E2|apply Z.ltb_ge in E2]; split; auto; lia.
+Qed.
+
+Lemma ising_hermitian : forall es J h n, Forall (fun t : term => pauli_word (snd t)) (ising_terms es J h n).
+Proof.
+  intros; rewrite ising_edge_sum; unfold ising_sum. rewrite !Forall_app; repeat split.
+  - repeat constructor.
+  - apply Forall_forall; intros t Ht; apply in_map_iff in Ht; destruct Ht as [e [<- _]]; apply pair_word_ok.
+  - apply Forall_forall; intros t Ht; apply in_map_iff in Ht; destruct Ht as [v [<- _]]; cbn; auto.
+Qed.
+
+Lemma heis_hermitian : forall es JX JY JZ, Forall (fun t : term => pauli_word (snd t)) (heis_terms es JX JY JZ).
+Proof.
+  intros; rewrite heis_edge_sum; unfold heis_sum. rewrite Forall_app; split.
+  - repeat constructor.
+  - apply Forall_forall; intros t Ht; apply in_flat_map in Ht; destruct Ht as [e [_ Ht]].
+    destruct Ht as [<-|[<-|[<-|[]]]]; apply pair_word_ok.
+Qed.
+
+(* ------------------------------------------------------------------ chain: explicit list, count, textbook Ising sum *)
+Definition chain_list (n : Z) (per : bool) : list edge :=
+  map (fun i => (i, i + 1, 0)) (range 0 (n - 1)) ++ (if per && negb (n =? 2) then [(0, n - 1, 0)] else []).
+
+Lemma chain_list_in : forall n per a b t, 0 < n ->
+  (In (a, b, t) (chain_list n per) <-> t = 0 /\ ((0 <= a /\ b = a + 1 /\ b < n) \/ (per = true /\ a = 0 /\ b = n - 1))).
+Proof.
+  intros n per a b t Hn; unfold chain_list; rewrite in_app_iff, in_map_iff; split.
+  - intros [[i [E Hi]]|H].
+    + inversion E; subst; apply In_range in Hi; split; auto; left; lia.
+    + destruct per; cbn in H; [|tauto]. destruct (n =? 2) eqn:E2; cbn in H; [tauto|].
+      destruct H as [E|[]]; inversion E; subst; auto.
+  - intros [-> [[H0 [-> H1]]|[-> [-> ->]]]].
+    + left; exists a; split; auto; apply In_range; lia.
+    + cbn. destruct (n =? 2) eqn:E2; cbn; [|right; left; auto].
+      apply Z.eqb_eq in E2; subst n. left; exists 0; split; auto. apply In_range; lia.
+Qed.
+
+Lemma chain_list_nodup : forall n per, 0 < n -> NoDup (chain_list n per).
+Proof.
+  intros n per Hn; unfold chain_list; apply NoDup_app_intro.
+  - apply NoDup_map_in; [|apply NoDup_range]. intros x y _ _ E; inversion E; auto.
+  - destruct (per && negb (n =? 2)); repeat constructor; auto.
+  - intros x Hx Hin. destruct per; cbn in Hin; [|tauto]. destruct (n =? 2) eqn:E2; cbn in Hin; [tauto|].
+    apply Z.eqb_neq in E2. destruct Hin as [<-|[]]. apply in_map_iff in Hx; destruct Hx as [i [E Hi]].
+    apply In_range in Hi; inversion E; lia.
+Qed.
+
+Lemma chain_edges_perm : forall n per, 0 < n ->
+  Permutation (lattice_edges (spec_of Chain) [n] [per] 1) (chain_list n per).
+Proof.
+  intros n per Hn; apply NoDup_Permutation; [apply edges_wf | apply chain_list_nodup; auto|].
+  intros [[a b] t]; rewrite chain_edges_explicit, chain_list_in by auto; tauto.
+Qed.
+
+Lemma chain_edges_count : forall n per, 0 < n ->
+  Z.of_nat (length (lattice_edges (spec_of Chain) [n] [per] 1)) = (n - 1) + (if per && negb (n =? 2) then 1 else 0).
+Proof.
+  intros n per Hn; rewrite (Permutation_length (chain_edges_perm n per Hn)).
+  unfold chain_list, range; rewrite app_length, !map_length, seq_length.
+  destruct (per && negb (n =? 2)); cbn [length]; lia.
+Qed.
+
+Lemma chain_irreflexive : forall n per a b t, 2 <= n ->
+  In (a, b, t) (lattice_edges (spec_of Chain) [n] [per] 1) -> a < b.
+Proof. intros n per a b t Hn H; apply chain_edges_explicit in H; lia. Qed.
+
+(* the transverse-Ising term list on a chain is, up to the order of the terms, the textbook sum
+   0*I - J sum_i Z_i Z_{i+1} [- J Z_0 Z_{n-1}] - h sum_i X_i *)
+Lemma chain_ising_textbook : forall n per J h, 0 < n ->
+  Permutation (ising_terms (lattice_edges (spec_of Chain) [n] [per] 1) J h n)
+              (ising_sum (chain_list n per) J h n).
+Proof.
+  intros n per J h Hn; rewrite ising_edge_sum; unfold ising_sum.
+  apply Permutation_app_head, Permutation_app_tail, Permutation_map, chain_edges_perm; auto.
+Qed.
+
+(* ------------------------------------------------------------------ bounded checks for the other shapes *)
+Definition degree (es : list edge) (v : Z) : Z :=
+  fold_left (fun a (e : edge) => match e with (i, j, _) => a + (if i =? v then 1 else 0) + (if j =? v then 1 else 0) end) es 0.
+(* fully periodic lattice, nearest neighbours: every site has z neighbours *)
+Definition regular (s : shape) (ncs : list Z) (z : Z) : bool :=
+  let sp := spec_of s in
+  let es := lattice_edges sp ncs (map (fun _ => true) ncs) 1 in
+  forallb (fun v => degree es v =? z) (range 0 (n_sites sp ncs)).
+Definition n_edges (s : shape) (ncs : list Z) (per : bool) (k : Z) : Z :=
+  Z.of_nat (length (lattice_edges (spec_of s) ncs (map (fun _ => per) ncs) k)).
+
+Lemma coordination_3 :
+  forallb (fun x : shape * list Z * Z => match x with (s, n, z) => regular s n z end)
+    [(Chain, [5], 2); (Square, [3; 4], 4); (Rectangle, [4; 3], 4); (Triangle, [3; 3], 6); (Honeycomb, [3; 3], 3);
+     (Kagome, [3; 3], 4); (Cubic, [3; 3; 3], 6); (Bcc, [3; 3; 3], 8); (Fcc, [3; 3; 3], 12); (Diamond, [3; 3; 3], 4)] = true.
+Proof. vm_compute; reflexivity. Qed.
+
+Lemma edge_counts_small :
+  map (fun x : shape * list Z * bool * Z => match x with (s, n, p, k) => n_edges s n p k end)
+    [(Square, [3; 3], false, 1); (Square, [3; 3], false, 2); (Square, [3; 3], true, 1); (Triangle, [3; 3], false, 1);
+     (Honeycomb, [2; 2], false, 1); (Honeycomb, [3; 3], true, 2); (Kagome, [2; 2], false, 1); (Lieb, [3; 3], true, 1);
+     (Lieb, [2; 2], false, 1); (Cubic, [2; 2; 2], false, 1); (Bcc, [2; 2; 2], false, 1); (Fcc, [2; 2; 2], false, 1);
+     (Diamond, [2; 2; 2], false, 1)]
+  = [12; 20; 18; 16; 8; 81; 17; 36; 12; 12; 27; 108; 20].
+Proof. vm_compute; reflexivity. Qed.
